@@ -12,7 +12,7 @@ use palette::convert::{
     IntoColorUnclampedMut,
 };
 use palette::white_point::D65;
-use palette::{Alpha, FromColor, Hsl, Hsv, Hwb, Lab, Lch, LinSrgb, Srgb, Xyz};
+use palette::{Alpha, FromColor, Hsl, Hsv, Hwb, Lab, Lch, LinLuma, LinSrgb, Srgb, SrgbLuma, Xyz};
 
 pub type Words = [u64; 4];
 
@@ -107,6 +107,44 @@ macro_rules! elem_f32x4 {
     };
 }
 
+macro_rules! elem_f32x1 {
+    ($t:ty, $tag:expr, $name:literal, |$c:ident| [$a0:expr], |$a:ident| $mk:expr) => {
+        impl Elem for $t {
+            const TAG: u8 = $tag;
+            const NAME: &'static str = $name;
+            #[inline]
+            fn to_words(&self) -> Words {
+                let $c = self;
+                [($a0 as f32).to_bits() as u64, 0, 0, 0]
+            }
+            #[inline]
+            fn from_words(w: Words) -> Self {
+                let $a = [f32::from_bits(w[0] as u32)];
+                $mk
+            }
+        }
+    };
+}
+
+macro_rules! elem_f32x2 {
+    ($t:ty, $tag:expr, $name:literal, |$c:ident| [$a0:expr, $a1:expr], |$a:ident| $mk:expr) => {
+        impl Elem for $t {
+            const TAG: u8 = $tag;
+            const NAME: &'static str = $name;
+            #[inline]
+            fn to_words(&self) -> Words {
+                let $c = self;
+                [($a0 as f32).to_bits() as u64, ($a1 as f32).to_bits() as u64, 0, 0]
+            }
+            #[inline]
+            fn from_words(w: Words) -> Self {
+                let $a = [f32::from_bits(w[0] as u32), f32::from_bits(w[1] as u32)];
+                $mk
+            }
+        }
+    };
+}
+
 // ---- family A: [f32; 3]
 pub type ASrgb = Srgb<f32>;
 pub type AHsv = Hsv<palette::encoding::Srgb, f32>;
@@ -151,6 +189,17 @@ elem_f32x4!(CHwba, 1, "Hwba", |c| [c.hue.into_raw_degrees(), c.whiteness, c.blac
 elem_f32x4!(CHsva, 2, "Hsva", |c| [c.hue.into_raw_degrees(), c.saturation, c.value, c.alpha], |a| Alpha { color: Hsv::new(a[0], a[1], a[2]), alpha: a[3] });
 elem_f32x4!(CHsla, 3, "Hsla", |c| [c.hue.into_raw_degrees(), c.saturation, c.lightness, c.alpha], |a| Alpha { color: Hsl::new(a[0], a[1], a[2]), alpha: a[3] });
 elem_f32x4!(CLaba, 4, "Laba", |c| [c.l, c.a, c.b, c.alpha], |a| Alpha { color: Lab::new(a[0], a[1], a[2]), alpha: a[3] });
+
+// ---- family D: [f32; 1] (the one-component array casts) and family E: [f32; 2]
+pub type DLuma = SrgbLuma<f32>;
+pub type DLin = LinLuma<D65, f32>;
+pub type ELumaa = Alpha<DLuma, f32>;
+pub type ELina = Alpha<DLin, f32>;
+
+elem_f32x1!(DLuma, 0, "SrgbLuma", |c| [c.luma], |a| SrgbLuma::new(a[0]));
+elem_f32x1!(DLin, 1, "LinLuma", |c| [c.luma], |a| LinLuma::new(a[0]));
+elem_f32x2!(ELumaa, 0, "SrgbLumaa", |c| [c.luma, c.alpha], |a| Alpha { color: SrgbLuma::new(a[0]), alpha: a[1] });
+elem_f32x2!(ELina, 1, "LinLumaa", |c| [c.luma, c.alpha], |a| Alpha { color: LinLuma::new(a[0]), alpha: a[1] });
 
 /// `$body` is expanded once with `$C` bound to the family member whose tag is `$tag`.
 macro_rules! dispatch {
@@ -455,16 +504,24 @@ macro_rules! convert_table {
 for_pairs!(impl_node, [ASrgb, AHsv, AHsl, AHwb, ALab, ALch, AXyz], [ASrgb, AHsv, AHsl, AHwb, ALab, ALch, AXyz]);
 for_pairs!(impl_node, [BSrgb, BLin, BXyz, BLab, BLch], [BSrgb, BLin, BXyz, BLab, BLch]);
 for_pairs!(impl_node, [CSrgba, CHwba, CHsva, CHsla, CLaba], [CSrgba, CHwba, CHsva, CHsla, CLaba]);
+for_pairs!(impl_node, [DLuma, DLin], [DLuma, DLin]);
+for_pairs!(impl_node, [ELumaa, ELina], [ELumaa, ELina]);
+for_pairs!(impl_single, [DLuma, DLin], [DLuma, DLin]);
+for_pairs!(impl_single, [ELumaa, ELina], [ELumaa, ELina]);
 for_pairs!(impl_single, [BSrgb, BLin, BXyz, BLab, BLch], [BSrgb, BLin, BXyz, BLab, BLch]);
 for_pairs!(impl_single, [CSrgba, CHwba, CHsva, CHsla, CLaba], [CSrgba, CHwba, CHsva, CHsla, CLaba]);
 
 convert_table!(convert_a, [ASrgb, AHsv, AHsl, AHwb, ALab, ALch, AXyz]);
 convert_table!(convert_b, [BSrgb, BLin, BXyz, BLab, BLch]);
 convert_table!(convert_c, [CSrgba, CHwba, CHsva, CHsla, CLaba]);
+convert_table!(convert_d, [DLuma, DLin]);
+convert_table!(convert_e, [ELumaa, ELina]);
 
 pub const FAMILY_A: [&str; 7] = ["Srgb", "Hsv", "Hsl", "Hwb", "Lab", "Lch", "Xyz"];
 pub const FAMILY_B: [&str; 5] = ["Srgb<f64>", "LinSrgb<f64>", "Xyz<f64>", "Lab<f64>", "Lch<f64>"];
 pub const FAMILY_C: [&str; 5] = ["Srgba", "Hwba", "Hsva", "Hsla", "Laba"];
+pub const FAMILY_D: [&str; 2] = ["SrgbLuma", "LinLuma"];
+pub const FAMILY_E: [&str; 2] = ["SrgbLumaa", "LinLumaa"];
 
 // ------------------------------------------------------------------ roots
 
@@ -653,6 +710,10 @@ macro_rules! replace_with_impl {
 buf_enum!(BufA, open_a, open_single_a, vecconv_a, readout_a, make_a, single: no, [ASrgb, AHsv, AHsl, AHwb, ALab, ALch, AXyz], [ASrgb, AHsv, AHsl, AHwb, ALab, ALch, AXyz]);
 buf_enum!(BufB, open_b, open_single_b, vecconv_b, readout_b, make_b, single: yes, [BSrgb, BLin, BXyz, BLab, BLch], [BSrgb, BLin, BXyz, BLab, BLch]);
 buf_enum!(BufC, open_c, open_single_c, vecconv_c, readout_c, make_c, single: yes, [CSrgba, CHwba, CHsva, CHsla, CLaba], [CSrgba, CHwba, CHsva, CHsla, CLaba]);
+buf_enum!(BufD, open_d, open_single_d, vecconv_d, readout_d, make_d, single: yes, [DLuma, DLin], [DLuma, DLin]);
+buf_enum!(BufE, open_e, open_single_e, vecconv_e, readout_e, make_e, single: yes, [ELumaa, ELina], [ELumaa, ELina]);
+replace_with_impl!(BufD, [DLuma, DLin]);
+replace_with_impl!(BufE, [ELumaa, ELina]);
 replace_with_impl!(BufA, [ASrgb, AHsv, AHsl, AHwb, ALab, ALch, AXyz]);
 replace_with_impl!(BufB, [BSrgb, BLin, BXyz, BLab, BLch]);
 replace_with_impl!(BufC, [CSrgba, CHwba, CHsva, CHsla, CLaba]);
